@@ -56,7 +56,16 @@ type c16Case struct {
 }
 
 // (indices are part of saved cases: append only) - the last name itself ends in what may be a configured extension
-var c16Names = []string{"/a", "/b", "/sub/c", "/d", "/e.jet", "/B", "/Sub/c"}
+var c16Names = []string{"/a", "/b", "/sub/c", "/d", "/e.jet", "/B", "/Sub/c",
+	// (not generated, see c16Pool: "/a" plus part of a configured extension; only the listed finding
+	// c16-cached-later-extension uses it)
+	"/a.html"}
+
+// c16Pool: the names histories are generated from. No name of the pool is the beginning of another one: with names
+// that are related through the extension list ("/a" and "/a.html" under ".jet" / ".html.jet") a template cached for
+// the one answers lookups of the other (the cache is probed under every candidate before the loader is asked) -
+// the listed finding.
+const c16Pool = 7
 
 // c16Own: path is name itself or name plus a suffix (an extension, dotted or not); no name of the pool is the
 // beginning of another one
@@ -137,7 +146,7 @@ func genC16(t *rapid.T) c16Case {
 	n := rapid.IntRange(2, 20).Draw(t, "nops")
 	lastExec := -1
 	for i := 0; i < n; i++ {
-		op := c16Op{Name: rapid.IntRange(0, len(c16Names)-1).Draw(t, "name")}
+		op := c16Op{Name: rapid.IntRange(0, c16Pool-1).Draw(t, "name")}
 		k := rapid.IntRange(0, 15).Draw(t, "op")
 		if i < 3 && k > 8 {
 			k = 0 // histories start with a few files in place
@@ -148,10 +157,10 @@ func genC16(t *rapid.T) c16Case {
 			op.Ext = rapid.IntRange(0, len(c.Exts)-1).Draw(t, "ext")
 			op.Variant = rapid.SampledFrom([]string{"text", "text", "text", "bad", "ext", "inc", "iie", "iief"}).Draw(t, "variant")
 			if op.Variant == "ext" || op.Variant == "inc" || op.Variant == "iie" || op.Variant == "iief" {
-				if op.Name == len(c16Names)-1 {
+				if op.Name == c16Pool-1 {
 					op.Variant = "text"
 				} else {
-					op.Dep = rapid.IntRange(op.Name+1, len(c16Names)-1).Draw(t, "dep") // acyclic by construction
+					op.Dep = rapid.IntRange(op.Name+1, c16Pool-1).Draw(t, "dep") // acyclic by construction
 				}
 			}
 		case k == 4:
@@ -169,7 +178,7 @@ func genC16(t *rapid.T) c16Case {
 		case k == 13:
 			op.Op = "parse"
 			op.Variant = rapid.SampledFrom([]string{"ext", "import", "text", "ext-rel", "import-rel"}).Draw(t, "parsevariant")
-			op.Dep = rapid.IntRange(0, len(c16Names)-1).Draw(t, "dep")
+			op.Dep = rapid.IntRange(0, c16Pool-1).Draw(t, "dep")
 			op.Self = (op.Variant == "ext" || op.Variant == "import") && rapid.IntRange(0, 2).Draw(t, "parseUnderOwnName") == 0
 		case k == 14:
 			op.Op = "exec"
